@@ -344,12 +344,61 @@ fn check_big(a: &[u64], b: &[u64]) -> Verdict {
     Ok(Info::new(bd.len() >= 2).class("large_operands_fingerprint_oracle"))
 }
 
+/// BigInt (op) primitive and primitive (op) BigInt for / and %: truncation semantics, every type that holds s
+fn check_is(sa: bool, a: &[u64], s: i128) -> Verdict {
+    let x = bi(sa, a);
+    let ra = ri(sa, a);
+    let rs = RefInt::from_i128(s);
+    macro_rules! forms {
+        ($($T:ty),*) => {$(
+            if let Ok(v) = <$T>::try_from(s) {
+                let tn = stringify!($T);
+                if s == 0 {
+                    must_panic(&format!("&BigInt / 0{}", tn), || &x / v)?;
+                    must_panic(&format!("&BigInt % 0{}", tn), || &x % v)?;
+                    must_panic(&format!("BigInt /= 0{}", tn), || { let mut t = x.clone(); t /= v; t })?;
+                    must_panic(&format!("BigInt %= 0{}", tn), || { let mut t = x.clone(); t %= v; t })?;
+                } else {
+                    let (q, r) = ra.divrem_trunc(&rs);
+                    // the reference pair is itself validated by the unique-solution predicate
+                    if q.mul(&rs).add(&r) != ra || !r.mag.lt(&rs.mag) || (!r.is_zero() && r.neg != ra.neg) {
+                        crate::refint::oracle_error("reference truncated division violates its own predicate");
+                    }
+                    ctx(must_return("a / s", || &x / v).and_then(|t| eq_bi(&t, &q)), &format!("&BigInt / {}", tn))?;
+                    ctx(must_return("a / s", || x.clone() / v).and_then(|t| eq_bi(&t, &q)), &format!("BigInt / {}", tn))?;
+                    ctx(must_return("a % s", || &x % v).and_then(|t| eq_bi(&t, &r)), &format!("&BigInt % {}", tn))?;
+                    ctx(must_return("a % s", || x.clone() % v).and_then(|t| eq_bi(&t, &r)), &format!("BigInt % {}", tn))?;
+                    ctx(must_return("a /= s", || { let mut t = x.clone(); t /= v; t }).and_then(|t| eq_bi(&t, &q)), &format!("BigInt /= {}", tn))?;
+                    ctx(must_return("a %= s", || { let mut t = x.clone(); t %= v; t }).and_then(|t| eq_bi(&t, &r)), &format!("BigInt %= {}", tn))?;
+                }
+                if ra.is_zero() {
+                    must_panic(&format!("{} / zero BigInt", tn), || v / &x)?;
+                    must_panic(&format!("{} % zero BigInt", tn), || v % &x)?;
+                } else {
+                    let (q, r) = rs.divrem_trunc(&ra);
+                    ctx(must_return("s / a", || v / &x).and_then(|t| eq_bi(&t, &q)), &format!("{} / &BigInt", tn))?;
+                    ctx(must_return("s / a", || v / x.clone()).and_then(|t| eq_bi(&t, &q)), &format!("{} / BigInt", tn))?;
+                    ctx(must_return("s % a", || v % &x).and_then(|t| eq_bi(&t, &r)), &format!("{} % &BigInt", tn))?;
+                    ctx(must_return("s % a", || v % x.clone()).and_then(|t| eq_bi(&t, &r)), &format!("{} % BigInt", tn))?;
+                }
+            }
+        )*};
+    }
+    forms!(i8, i16, i32, i64, isize, i128, u8, u16, u32, u64, usize, u128);
+    let mins = [i8::MIN as i128, i16::MIN as i128, i32::MIN as i128, i64::MIN as i128, i128::MIN];
+    Ok(Info::new(!ra.is_zero() && s != 0 && s != 1)
+        .class("bigint_scalar_forms")
+        .class_if(mins.contains(&s), "scalar_is_a_MIN")
+        .class_if(s == 0 || ra.is_zero(), "zero_divisor")
+        .class_if(s < 0, "negative_scalar"))
+}
+
 impl Property for C03 {
     fn id(&self) -> &'static str {
         "C03"
     }
     fn rule(&self) -> &'static str {
-        "Cases are (dividend, divisor) pairs for BigUint (div.u), BigInt with all sign pairs (div.i) and scalar forms (div.us), drawn from: independent special-digit operands, single-digit divisors, a<b / a=b / a=b+-1 / equal lengths, every normalisation shift 0..63 of the divisor's top digit, a constructed add-back family (a = Q*[b1,b0]*B^k + tiny, b = [b1,b0]*B^k + lo), a constructed top-digit-equal family, exact and near-exact products q*b + {0,1,b-1}, and zero divisors. The oracle is the unique-solution predicate a = q*b + r plus the range/sign condition of each convention, evaluated with RefInt mul/add/cmp only; every other API form is compared with that pair; zero divisors must panic / give None. Non-trivial: divisor >= 2 digits and |a| > |b| (Knuth D runs), or the zero-divisor clause."
+        "Cases are (dividend, divisor) pairs for BigUint (div.u), BigInt with all sign pairs (div.i) and scalar forms (div.us: BigUint with u32/u64/u128; div.is: BigInt with all 12 primitive types on either side incl. each type's MIN, both / and %, op-assign), drawn from: independent special-digit operands, single-digit divisors, a<b / a=b / a=b+-1 / equal lengths, every normalisation shift 0..63 of the divisor's top digit, a constructed add-back family (a = Q*[b1,b0]*B^k + tiny, b = [b1,b0]*B^k + lo), a constructed top-digit-equal family, exact and near-exact products q*b + {0,1,b-1}, and zero divisors. The oracle is the unique-solution predicate a = q*b + r plus the range/sign condition of each convention, evaluated with RefInt mul/add/cmp only; every other API form is compared with that pair; zero divisors must panic / give None. Non-trivial: divisor >= 2 digits and |a| > |b| (Knuth D runs), or the zero-divisor clause."
     }
     fn strategy(&self, tier: Tier) -> BoxedStrategy<Case> {
         let ml = 40;
@@ -362,7 +411,15 @@ impl Property for C03 {
         let u = zero_or(gen::div_pair(ml)).prop_map(|(a, b)| Case::new("div.u", vec![Arg::N(a), Arg::N(b)]));
         let i = (any::<bool>(), any::<bool>(), zero_or(gen::div_pair(ml)))
             .prop_map(|(sa, sb, (a, b))| Case::new("div.i", vec![Arg::Z(sa, a), Arg::Z(sb, b)]));
-        let us = (gen::nat(6), gen::scalar_u128()).prop_map(|(a, s)| Case::new("div.us", vec![Arg::N(a), Arg::U(s)]));
+        let us = prop_oneof![
+            50 => (gen::nat(6), gen::scalar_u128()).prop_map(|(a, s)| Case::new("div.us", vec![Arg::N(a), Arg::U(s)])),
+            35 => (any::<bool>(), gen::nat(4), gen::scalar_i128()).prop_map(|(sa, a, s)| Case::new("div.is", vec![Arg::Z(sa, a), Arg::I(s)])),
+            // |big| = |scalar| +- d, multiples of the scalar
+            15 => (any::<bool>(), gen::scalar_i128(), -2i128..=2, 1u64..5).prop_map(|(sa, s, d, k)| {
+                let m = RefInt::from_u128(s.unsigned_abs()).mul(&RefInt::from_u128(k as u128)).add(&RefInt::from_i128(d));
+                Case::new("div.is", vec![Arg::Z(sa, if m.neg { vec![] } else { m.mag.to_u64_digits() }), Arg::I(s)])
+            }),
+        ];
         match tier {
             Tier::Quick => prop_oneof![45 => u, 45 => i, 10 => us].boxed(),
             Tier::Thorough => {
@@ -371,9 +428,17 @@ impl Property for C03 {
                     .prop_map(|(sa, sb, (a, b))| Case::new("div.i", vec![Arg::Z(sa, a), Arg::Z(sb, b)]));
                 let huge = (gen::big_nat(vec![600, 1000, 2048, 3000, 4096]), gen::big_nat(vec![2, 64, 300, 512, 1000, 2047]), any::<bool>())
                     .prop_map(|(a, b, exact)| {
-                        // half of the cases are exact or near-exact multiples built with the reference multiplication of small factors
-                        let _ = exact;
-                        Case::new("div.big", vec![Arg::N(a), Arg::N(b)])
+                        // half of the cases are exact or near-exact multiples q*b + {0, 1, b-1} built with the reference multiplication
+                        if exact {
+                            let q = gen::trim(a[..a.len().min(600)].to_vec());
+                            let rb = rn(&b);
+                            let r = match a[0] % 3 { 0 => Nat::zero(), 1 => Nat::one(), _ => rb.sub(&Nat::one()) };
+                            let r = if r.lt(&rb) { r } else { Nat::zero() };
+                            let prod = rn(&q).mul(&rb).add(&r);
+                            Case::new("div.big", vec![Arg::N(prod.to_u64_digits()), Arg::N(b)])
+                        } else {
+                            Case::new("div.big", vec![Arg::N(a), Arg::N(b)])
+                        }
                     });
                 prop_oneof![430 => u, 430 => i, 100 => us, 20 => bu_, 20 => bi_, 2 => huge].boxed()
             }
@@ -389,6 +454,10 @@ impl Property for C03 {
             }
             "div.us" => check_us(c.n(0), c.u(1)),
             "div.big" => check_big(c.n(0), c.n(1)),
+            "div.is" => {
+                let (sa, a) = c.z(0);
+                check_is(sa, a, c.i(1))
+            }
             o => Err(format!("unknown op {}", o)),
         }
     }
